@@ -393,7 +393,14 @@ func shortStack() string {
 	st := string(debug.Stack())
 	lines := strings.Split(st, "\n")
 	var out []string
-	for _, l := range lines {
+	seenPanic := false
+	for k, l := range lines {
+		if strings.HasPrefix(l, "panic(") {
+			seenPanic = true
+			out = out[:0]
+			continue
+		}
+		_ = k
 		l = strings.TrimSpace(l)
 		if strings.Contains(l, "/interp/") && strings.Contains(l, ".go:") {
 			if k := strings.LastIndex(l, "/"); k >= 0 {
@@ -403,10 +410,13 @@ func shortStack() string {
 				l = l[:k]
 			}
 			out = append(out, l)
-			if len(out) >= 6 {
+			if len(out) >= 8 && seenPanic {
 				break
 			}
 		}
+	}
+	if len(out) > 8 {
+		out = out[:8]
 	}
 	return strings.Join(out, " < ")
 }
@@ -439,7 +449,7 @@ func (p *Program) newInterpreter(sv *solver) *interpreter {
 	i.program = p
 	tt := newTermTable()
 	tt.owner = i
-	i.ps = &pathState{tt: tt, nameCount: map[string]int{}, reached: map[string]bool{}, known: map[string]bool{}, funcs: map[string]int64{}}
+	i.ps = &pathState{tt: tt, nameCount: map[string]int{}, reached: map[string]bool{}, known: map[string]bool{}, funcs: map[string]int64{}, decided: map[*term]bool{}}
 	runtimePkg := i.prog.ImportedPackage("runtime")
 	if runtimePkg == nil {
 		panic("ssa.Program doesn't include runtime package")
